@@ -445,6 +445,13 @@ func (h *handler) processUnaryRpc(
 		if !ok {
 			st = status.FromContextError(appErr)
 		}
+		if st.Code() == codes.OK {
+			// An error did occur, whatever status it carries: re-write (only)
+			// the code, as SendTrailer does for streams.
+			stpb := st.Proto()
+			stpb.Code = int32(codes.Internal)
+			st = status.FromProto(stpb)
+		}
 		respStatus = &goatorepo.ResponseStatus{
 			Code:    st.Proto().GetCode(),
 			Message: st.Proto().GetMessage(),
